@@ -77,6 +77,15 @@ theorem distinct_key_maps_distinct_cache_keys_counterexample :
   revert this
   decide
 
+/-- FULL STATEMENT (false of the code, see the counterexamples above):
+      ∀ key maps k1 k2,  sortKV k1 ≠ sortKV k2 → mapToString k1 ≠ mapToString k2
+    i.e. requests with different key maps get different data-cache keys.
+    PROVED PART: it holds whenever no key and no value contains ',' or '=' (the two bytes mapToString
+    uses as separators).  What is missing is exactly the escaping of those bytes. -/
+theorem distinct_key_maps_distinct_cache_keys_partial (k1 k2 : List (Str × Str))
+    (h1 : SepFree k1) (h2 : SepFree k2) (hne : sortKV k1 ≠ sortKV k2) : mapToString k1 ≠ mapToString k2 :=
+  fun h => hne (mapToString_inj_sepfree k1 k2 h1 h2 h)
+
 end Keys
 
 /-! ## data cache -/
